@@ -448,7 +448,7 @@ func cmdCheck(args []string) int {
 		"solver_seconds":                round3(solverS),
 		"generation_seconds":            round3(genS),
 		"slowest_obligation":            map[string]interface{}{"name": slowest, "seconds": round3(slowestS)},
-		"slowest_path_query":            map[string]interface{}{"obligation": slowQ, "seconds": round3(slowQS), "timeout_seconds": map[string]int{"quick": 20, "thorough": 60}[*tier]},
+		"slowest_path_query":            map[string]interface{}{"obligation": slowQ, "seconds": round3(slowQS), "timeout_seconds": map[string]int{"quick": 30, "thorough": 60}[*tier]},
 		"queries_retried_after_timeout": retried,
 		"smoke_checks":                  smokeN,
 		"smoke_failed":                  smokeBad,
